@@ -75,3 +75,15 @@ CLAIMS["C04"] = (
     "Bounded alphabets. Poisson/Gamma/Cox are not run on 2^10-rescaled designs (exp leaves float64). Budget 0 from an "
     "infeasible start is exempt (start returned untouched). Known finding: prox-Newton solvers from infeasible starts.",
     "DESIGN.md §4 C04")
+CLAIMS["C17"] = (
+    "model_checking",
+    "explicit-state exploration of solver trajectories (every stopping point of a budget column is a state reached by a real solve); diagnostics invariants on every state and history-vs-iterate agreement along each column",
+    "For all 9 solvers x datafits x penalty classes x storage, designs x alphas x {default tol, loose tol, intercept flipped, "
+    "acceleration flipped, fixpoint} x cold/warm: in every column of outer budgets the history length must match the budget or "
+    "a convergence claim, entries be finite, the last entry equal the recomputed objective of the returned point, entry i "
+    "of the longest run equal the objective of the point returned with budget i+1, and on tolerance stops the returned "
+    "stopping value equal the reference violation of the returned point; estimators' n_iter_ must be within budget, "
+    "consistent with stop_crit_, and reproduce the fit when used as max_iter.",
+    "Trusted: mc/ref objective and certificate. LBFGS / PDCD_WS exempt from the stop-value clause (other units). Known "
+    "finding: FISTA's stale-gradient stopping value.",
+    "DESIGN.md §4 C17")
